@@ -178,6 +178,127 @@ fn case_json(base: &[&str], table: &MergeTable, explicit: bool, text: &str) -> J
     })
 }
 
+
+// ---------------------------------------------------------------------------
+// Merge lists that name a pair twice. The rank of such a pair is its first or its last
+// position in the list (the statement does not say; rten's map keeps the last one), so a
+// result is accepted if it equals the reference under either ranking (and either textbook
+// reading); anything else - for instance two different pairs ending up with the same
+// rank - is a violation.
+
+fn dup_matrices(table: &MergeTable) -> [Vec<Vec<Option<(usize, usize)>>>; 2] {
+    let n = table.syms.len();
+    let mut first = vec![vec![None; n]; n];
+    for (rank, &(x, y, r)) in table.merges.iter().enumerate() {
+        if first[x][y].is_none() {
+            first[x][y] = Some((rank, r));
+        }
+    }
+    [first, table.matrix()]
+}
+
+fn check_dup(table: &MergeTable, explicit: bool, subj: &Subject, input: &[usize], text: &str) -> (Option<(String, String)>, bool) {
+    let ms = dup_matrices(table);
+    let mut accept: Vec<Vec<usize>> = Vec::new();
+    for m in &ms {
+        accept.push(refmodel::bpe_one_at_a_time(m, input).0);
+        accept.push(refmodel::bpe_all_occurrences(m, input).0);
+    }
+    let ambiguous = accept.iter().any(|a| *a != accept[0]);
+    let vocab = if explicit { "explicit" } else { "implicit" };
+    let r = vp_core::catch(|| subj.tok.encode(text, None).map(|e| e.token_ids().to_vec()));
+    let sig = match r {
+        Err(p) => Some((format!("Tokenizer::encode(Bpe) panicked [merge list that names a pair twice]"), p)),
+        Ok(Err(e)) => Some((format!("Tokenizer::encode(Bpe) returned error [merge list that names a pair twice]"), format!("{e:?}"))),
+        Ok(Ok(ids)) => {
+            if accept.iter().any(|a| ids_match(table, explicit, subj, &ids, a)) {
+                None
+            } else {
+                let strs: Vec<Option<String>> = ids.iter().map(|&i| subj.tok.model().get_token_str(i)).collect();
+                let want: Vec<&str> = accept[0].iter().map(|&s| table.syms[s].as_str()).collect();
+                Some((
+                    format!("Tokenizer::encode(Bpe) token ids != reference BPE [merge list that names a pair twice; vocab {vocab}]"),
+                    format!("input {text:?} merges {:?}: rten ids {ids:?} = tokens {strs:?}; reference tokens {want:?} (rank = first occurrence)", table.pairs()),
+                ))
+            }
+        }
+    };
+    (sig, ambiguous)
+}
+
+fn dup_case_json(base: &[&str], table: &MergeTable, explicit: bool, text: &str) -> Json {
+    let mut j = case_json(base, table, explicit, text);
+    j["duplicate_entries"] = json!(true);
+    j
+}
+
+/// Every table of `all_tables(base, 3)` with 1..=3 merges x every entry i x every later
+/// position j at which a second copy of entry i is inserted.
+fn duplicate_entry_tables(base: &[&str]) -> Vec<MergeTable> {
+    let mut out = Vec::new();
+    for t in refmodel::all_tables(base, 3) {
+        let k = t.merges.len();
+        for i in 0..k {
+            for j in i + 1..=k {
+                let mut merges = t.merges.clone();
+                merges.insert(j, t.merges[i]);
+                out.push(MergeTable { syms: t.syms.clone(), nbase: t.nbase, merges, forward_refs: false });
+            }
+        }
+    }
+    out
+}
+
+fn duplicate_entry_box(ctx: &Ctx) -> Json {
+    let base = ["a", "b"];
+    let nmax = 6;
+    let tables = duplicate_entry_tables(&base);
+    let res = vp_core::par::map(tables.len(), |ti| {
+        let table = &tables[ti];
+        let (mut cases, mut amb, mut rejected) = (0u64, 0u64, 0u64);
+        let mut viols: Vec<(String, Json, String)> = Vec::new();
+        for explicit in [false, true] {
+            let Ok(subj) = build(table, explicit) else {
+                rejected += 1;
+                continue;
+            };
+            let mut firsts: Vec<Option<usize>> = vec![None];
+            firsts.extend((0..base.len()).map(Some));
+            for first in firsts {
+                util::for_each_string(&base, first, nmax, |text, idx| {
+                    cases += 1;
+                    let (sig, ambiguous) = check_dup(table, explicit, &subj, idx, text);
+                    if ambiguous {
+                        amb += 1;
+                    }
+                    if let Some((sig, detail)) = sig {
+                        if viols.len() < 4 {
+                            viols.push((sig, dup_case_json(&base, table, explicit, text), detail));
+                        }
+                    }
+                });
+            }
+        }
+        (cases, amb, rejected, viols)
+    });
+    let (mut cases, mut amb, mut rejected) = (0u64, 0u64, 0u64);
+    for (c, a, r, viols) in res {
+        cases += c;
+        amb += a;
+        rejected += r;
+        for (sig, case, detail) in viols {
+            ctx.violation(sig, case, detail);
+        }
+    }
+    if rejected > 0 {
+        ctx.observe_n("Bpe::new rejects a merge list that names a pair twice (not judged)", rejected);
+    }
+    if cases == 0 {
+        ctx.machinery("C28: duplicate-entry sub-box is vacuous");
+    }
+    json!({"alphabet": base, "merge_tables": tables.len(), "max_input_len": nmax, "cases": cases, "cases_where_first_and_last_occurrence_ranking_or_the_two_readings_differ(any accepted)": amb, "tables_rejected_by_Bpe::new": rejected})
+}
+
 struct Sub {
     base: Vec<&'static str>,
     kmax: usize,
@@ -296,6 +417,7 @@ pub fn run(ctx: Ctx) -> ! {
         });
         all.extend(shards);
     }
+    let dup_axis = duplicate_entry_box(&ctx);
     let m = util::merge(&ctx, all, 10);
     if m.get("cases") != total_eval {
         ctx.machinery(&format!("C28: enumerated {} cases, box has {}", m.get("cases"), total_eval));
@@ -320,6 +442,7 @@ pub fn run(ctx: Ctx) -> ! {
         "rule": "every (merge table, vocabulary mode, input string) of the stated sub-boxes exactly once (cases are distinct by construction); non-trivial = the reference applied at least one merge to the input",
         "exhaustive": true,
         "sub_boxes": axes,
+        "merge_lists_naming_a_pair_twice": dup_axis,
         "counters": m.counters_json(),
         "distinct_outcome_classes": m.classes.len(),
         "outcome_classes_sampled": m.classes.iter().take(12).collect::<Vec<_>>(),
@@ -349,6 +472,26 @@ fn replay(ctx: Ctx, path: &std::path::Path) -> ! {
         .unwrap_or_default();
     let explicit = case["vocab"].as_str() == Some("explicit");
     let text = case["input"].as_str().unwrap_or("").to_string();
+    if case["duplicate_entries"].as_bool() == Some(true) {
+        // rebuild: first occurrences through from_pairs, then re-insert the duplicates
+        let mut uniq: Vec<(String, String)> = Vec::new();
+        for p in &pairs {
+            if !uniq.contains(p) {
+                uniq.push(p.clone());
+            }
+        }
+        let Some(t0) = MergeTable::from_pairs(&base, &uniq) else { ctx.machinery("C28 replay: malformed merge table in artefact") };
+        let merges: Vec<(usize, usize, usize)> = pairs.iter().map(|p| t0.merges[uniq.iter().position(|u| u == p).unwrap()]).collect();
+        let table = MergeTable { syms: t0.syms.clone(), nbase: t0.nbase, merges, forward_refs: false };
+        let idx: Option<Vec<usize>> = text.chars().map(|c| base.iter().position(|b| b.chars().eq(std::iter::once(c)))).collect();
+        let Some(idx) = idx else { ctx.machinery("C28 replay: input uses symbols outside the alphabet") };
+        if let Ok(subj) = build(&table, explicit) {
+            if let (Some((sig, detail)), _) = check_dup(&table, explicit, &subj, &idx, &text) {
+                ctx.violation(sig, case.clone(), detail);
+            }
+        }
+        ctx.finish("exploration", json!({"evaluations": 1, "distinct_nontrivial": 0, "rule": "replay of one case", "samples": [case], "exhaustive": false}), vec![]);
+    }
     let Some(table) = MergeTable::from_pairs(&base, &pairs) else {
         ctx.machinery("C28 replay: malformed merge table in artefact");
     };
